@@ -2,11 +2,11 @@ package main
 
 import (
 	"fmt"
-	"os"
-	"time"
 	"go/types"
+	"os"
 	"sort"
 	"strings"
+	"time"
 
 	"verif/internal/load"
 	"verif/internal/mem"
@@ -155,6 +155,7 @@ func checkC08(c *Ctx, r *rep.Report) {
 		timed("unrolled", func() { ruleArithStructure(r, p) })
 		timed("selector", func() { ruleSelector(r, p) })
 		ruleSwap(r, p)
+		ruleCmov(r, p)
 		timed("bitorigin", func() { ruleBitOrigin(r, p, "modm"); ruleBitOrigin(r, p, "curve25519") })
 		ruleVartimePredicates(r, p)
 		timed("magnitudes+exact", func() {
@@ -162,6 +163,7 @@ func checkC08(c *Ctx, r *rep.Report) {
 			ruleMagnitudes(r, p, "modm")
 			ruleExponentChains(r, p)
 			ruleExactModm(r, p)
+			ruleOutputDefined(r, p)
 		})
 	}
 }
@@ -186,6 +188,8 @@ func checkC16(c *Ctx, r *rep.Report) {
 		ruleAsm(r, p)
 		ruleUnrolledChains(r, p)
 		ruleSelector(r, p)
+		ruleSwap(r, p)
+		ruleCmov(r, p)
 		ruleSchedules(r, p)
 		ruleBitOrigin(r, p, "modm")
 		ruleGlobalWrites(r, p, mem.New())
@@ -208,6 +212,7 @@ func checkC18(c *Ctx, r *rep.Report) {
 		ruleSwap(r, p)
 		ruleMagnitudes(r, p, "curve25519")
 		ruleExponentChains(r, p)
+		ruleOutputDefined(r, p)
 	}
 }
 
@@ -226,6 +231,7 @@ func checkC19(c *Ctx, r *rep.Report) {
 		ruleBitOrigin(r, p, "modm")
 		ruleVartimePredicates(r, p)
 		ruleExactModm(r, p)
+		ruleOutputDefined(r, p)
 		ruleMagnitudes(r, p, "modm")
 	}
 }
